@@ -145,3 +145,260 @@ Example C07_ex_tag_hyp : tag_wf (mk_tag 2 16384 true) /\ tag_readable (mk_tag 2 
 Proof. split; [split; cbn; lia|]. split; [intros H; discriminate H|]. apply small_lt_P126. vm_compute. reflexivity. Qed.
 Example C07_ex_oid : encode_oid [1; 2; 840; 113549; 1; 7; 3] = Ok [42; 134; 72; 134; 247; 13; 1; 7; 3].
 Proof. vm_compute. reflexivity. Qed.
+
+(* ---- tie to the source (flows): whole functions of _asn1.py, regenerated as syntax on every run (gen/F_asn1.v) and run in
+   the world Flow/World_asn1.v (what every name / attribute / callee / method means, in terms of Model/Asn1.v), ARE the model
+   functions the theorems above are about.  `run` is Prelude/PyAst.v's interpreter; `run_mut` (Prelude/PyAstMut.v) also
+   returns the parameters afterwards, so a method tie states the reader / writer after the call (first element).
+   A tag argument is `vopt_tag t` (None or an ASN1Tag), a header `vopt_header h`, a hint `vopt_str s` (None or a str: it only
+   feeds message texts); Python bools are ints.  Loops: the interpreter's fuel must exceed the model's own bound. ---- *)
+From V Require Import Prelude.PyAst.
+From V Require Import Prelude.PyWorld Prelude.PyAstMut gen.F_asn1 Flow.World_asn1.
+From V Require Import Proofs.Flow_asn1_pack Proofs.Flow_asn1_b128 Proofs.Flow_asn1_tlv Proofs.Flow_asn1_hdr Proofs.Flow_asn1_read
+  Proofs.Flow_asn1_reader Proofs.Flow_asn1_writer.
+Local Open Scope string_scope.
+Local Open Scope list_scope.
+Local Open Scope Z_scope.
+
+Theorem C07_flow_universal_tag : forall fuel cls (n : Z) (b : bool),
+  run W fuel k_flow_universal_tag [cls; VI n; vb b] = Ok (VO (OTag (universal_tag n b))).
+Proof. exact flow_universal_tag. Qed.
+Print Assumptions C07_flow_universal_tag.
+Theorem C07_flow_pack_asn1_boolean : forall fuel (v : Z) t,
+  run W fuel k_flow_pack_asn1_boolean [VI v; vopt_tag t] = lift_b (pack_boolean (negb (v =? 0)) t).
+Proof. exact flow_pack_asn1_boolean. Qed.
+Print Assumptions C07_flow_pack_asn1_boolean.
+Theorem C07_flow_pack_asn1_octet_string : forall fuel b t,
+  run W fuel k_flow_pack_asn1_octet_string [VB b; vopt_tag t] = lift_b (pack_octet_string b t).
+Proof. exact flow_pack_asn1_octet_string. Qed.
+Print Assumptions C07_flow_pack_asn1_octet_string.
+Theorem C07_flow_pack_asn1_utf8_string : forall fuel s t,
+  run W fuel k_flow_pack_asn1_utf8_string [VS s; vopt_tag t] = lift_b (pack_utf8_string s t).
+Proof. exact flow_pack_asn1_utf8_string. Qed.
+Print Assumptions C07_flow_pack_asn1_utf8_string.
+Theorem C07_flow_pack_asn1_generalized_time : forall fuel s t,
+  run W fuel k_flow_pack_asn1_generalized_time [VS s; vopt_tag t] = lift_b (pack_generalized_time s t).
+Proof. exact flow_pack_asn1_generalized_time. Qed.
+Print Assumptions C07_flow_pack_asn1_generalized_time.
+Theorem C07_flow_pack_asn1_object_identifier : forall fuel arcs t,
+  run W fuel k_flow_pack_asn1_object_identifier [VO (OOid arcs); vopt_tag t] = lift_b (pack_object_identifier arcs t).
+Proof. exact flow_pack_asn1_object_identifier. Qed.
+Print Assumptions C07_flow_pack_asn1_object_identifier.
+Theorem C07_flow_pack_asn1_enumerated : forall fuel v t,
+  run W fuel k_flow_pack_asn1_enumerated [VI v; vopt_tag t] = lift_b (pack_enumerated v t).
+Proof. exact flow_pack_asn1_enumerated. Qed.
+Print Assumptions C07_flow_pack_asn1_enumerated.
+(* num >= 0 terminates within bits_fuel num iterations; a negative num never reaches 0 (>> is arithmetic): both sides OutOfFuel *)
+Theorem C07_flow_pack_asn1_octet_number : forall fuel num,
+  (bits_fuel num < fuel)%nat ->
+  run W fuel k_flow_pack_asn1_octet_number [VI num] = lift_b (pack_octet_number num).
+Proof. exact flow_pack_asn1_octet_number. Qed.
+Print Assumptions C07_flow_pack_asn1_octet_number.
+Theorem C07_flow_unpack_asn1_octet_number : forall fuel data,
+  (Datatypes.length data < fuel)%nat ->
+  run W fuel k_flow_unpack_asn1_octet_number [VB data] =
+  (let* (i, idx) := unpack_octet_number data in Ok (VT [VI i; VI idx])).
+Proof. exact flow_unpack_asn1_octet_number. Qed.
+Print Assumptions C07_flow_unpack_asn1_octet_number.
+Theorem C07_flow_pack_asn1 : forall fuel tc (cz : Z) tn data,
+  (bits_fuel (len data) < fuel)%nat ->
+  run W fuel k_flow_pack_asn1 [VI tc; VI cz; VI tn; VB data] = lift_b (pack_asn1 tc (negb (cz =? 0)) tn data).
+Proof. exact flow_pack_asn1. Qed.
+Print Assumptions C07_flow_pack_asn1.
+Theorem C07_flow_read_asn1_header : forall fuel data,
+  run W fuel k_flow_read_asn1_header [VB data] = (let* h := read_asn1_header data in Ok (inj_header h)).
+Proof. exact flow_read_asn1_header. Qed.
+Print Assumptions C07_flow_read_asn1_header.
+Theorem C07_flow_validate_tag : forall fuel data exp ty h hint,
+  run W fuel k_flow_validate_tag [VB data; vopt_tag exp; VO (OTag ty); vopt_header h; vopt_str hint] =
+  (let* r := validate_tag data exp ty h in Ok (inj_raw r)).
+Proof. exact flow_validate_tag. Qed.
+Print Assumptions C07_flow_validate_tag.
+Theorem C07_flow_read_asn1_octet_string : forall fuel data t h hint,
+  run W fuel k_flow_read_asn1_octet_string [VB data; vopt_tag t; vopt_header h; vopt_str hint] =
+  (let* r := validate_tag data t (universal_tag c_tag_octet_string false) h in Ok (inj_raw r)).
+Proof. exact flow_read_asn1_octet_string. Qed.
+Print Assumptions C07_flow_read_asn1_octet_string.
+Theorem C07_flow_read_asn1_sequence : forall fuel data t h hint,
+  run W fuel k_flow_read_asn1_sequence [VB data; vopt_tag t; vopt_header h; vopt_str hint] =
+  (let* r := validate_tag data t (universal_tag c_tag_sequence true) h in Ok (inj_raw r)).
+Proof. exact flow_read_asn1_sequence. Qed.
+Print Assumptions C07_flow_read_asn1_sequence.
+Theorem C07_flow_read_asn1_set : forall fuel data t h hint,
+  run W fuel k_flow_read_asn1_set [VB data; vopt_tag t; vopt_header h; vopt_str hint] =
+  (let* r := validate_tag data t (universal_tag c_tag_set true) h in Ok (inj_raw r)).
+Proof. exact flow_read_asn1_set. Qed.
+Print Assumptions C07_flow_read_asn1_set.
+Theorem C07_flow_read_asn1_boolean : forall fuel data t h hint,
+  run W fuel k_flow_read_asn1_boolean [VB data; vopt_tag t; vopt_header h; vopt_str hint] =
+  (let* r := m_read_boolean data t h in Ok (inj_bool r)).
+Proof. exact flow_read_asn1_boolean. Qed.
+Print Assumptions C07_flow_read_asn1_boolean.
+Theorem C07_flow_read_asn1_utf8_string : forall fuel data t h hint,
+  run W fuel k_flow_read_asn1_utf8_string [VB data; vopt_tag t; vopt_header h; vopt_str hint] =
+  (let* r := m_read_str c_tag_utf8 data t h in Ok (inj_str r)).
+Proof. exact flow_read_asn1_utf8_string. Qed.
+Print Assumptions C07_flow_read_asn1_utf8_string.
+Theorem C07_flow_read_asn1_generalized_time : forall fuel data t h hint,
+  run W fuel k_flow_read_asn1_generalized_time [VB data; vopt_tag t; vopt_header h; vopt_str hint] =
+  (let* r := m_read_str c_tag_gentime data t h in Ok (inj_str r)).
+Proof. exact flow_read_asn1_generalized_time. Qed.
+Print Assumptions C07_flow_read_asn1_generalized_time.
+Theorem C07_flow_read_asn1_enumerated : forall fuel data t h hint,
+  run W fuel k_flow_read_asn1_enumerated [VB data; vopt_tag t; vopt_header h; vopt_str hint] =
+  (let* r := m_read_enumerated data t h in Ok (inj_int r)).
+Proof. exact flow_read_asn1_enumerated. Qed.
+Print Assumptions C07_flow_read_asn1_enumerated.
+Theorem C07_flow_reader_init : forall fuel data,
+  run_mut MW fuel k_flow_reader_init [VO ONewReader; VB data] = Ok (VN, [VO (OReader data); VB data]).
+Proof. exact flow_reader_init. Qed.
+Print Assumptions C07_flow_reader_init.
+Theorem C07_flow_reader_bool : forall fuel view,
+  run_mut MW fuel k_flow_reader_bool [VO (OReader view)] = Ok (vb (reader_bool view), [VO (OReader view)]).
+Proof. exact flow_reader_bool. Qed.
+Print Assumptions C07_flow_reader_bool.
+Theorem C07_flow_reader_peek_header : forall fuel view,
+  run_mut MW fuel k_flow_reader_peek_header [VO (OReader view)] =
+  (let* h := peek_header view in Ok (inj_header h, [VO (OReader view)])).
+Proof. exact flow_reader_peek_header. Qed.
+Print Assumptions C07_flow_reader_peek_header.
+Theorem C07_flow_reader_skip_value : forall fuel view h,
+  run_mut MW fuel k_flow_reader_skip_value [VO (OReader view); inj_header h] =
+  Ok (VN, [VO (OReader (skip_value view h)); inj_header h]).
+Proof. exact flow_reader_skip_value. Qed.
+Print Assumptions C07_flow_reader_skip_value.
+Theorem C07_flow_reader_get_remaining_data : forall fuel view,
+  run_mut MW fuel k_flow_reader_get_remaining_data [VO (OReader view)] =
+  Ok (VB (fst (get_remaining_data view)), [VO (OReader (snd (get_remaining_data view)))]).
+Proof. exact flow_reader_get_remaining_data. Qed.
+Print Assumptions C07_flow_reader_get_remaining_data.
+Theorem C07_flow_reader_read_boolean : forall fuel view t h hint,
+  run_mut MW fuel k_flow_reader_read_boolean [VO (OReader view); vopt_tag t; vopt_header h; vopt_str hint] =
+  (let* (v, rest) := read_boolean view t h in Ok (vb v, [VO (OReader rest); vopt_tag t; vopt_header h; vopt_str hint])).
+Proof. exact flow_reader_read_boolean. Qed.
+Print Assumptions C07_flow_reader_read_boolean.
+Theorem C07_flow_reader_read_integer : forall fuel view t h hint,
+  run_mut MW fuel k_flow_reader_read_integer [VO (OReader view); vopt_tag t; vopt_header h; vopt_str hint] =
+  (let* (v, rest) := read_integer view t h in Ok (VI v, [VO (OReader rest); vopt_tag t; vopt_header h; vopt_str hint])).
+Proof. exact flow_reader_read_integer. Qed.
+Print Assumptions C07_flow_reader_read_integer.
+(* enum_type: an IntEnum class given by its member values; a non-member raises ValueError (the reader has advanced) *)
+Theorem C07_flow_reader_read_enumerated : forall fuel view ms t h hint,
+  run_mut MW fuel k_flow_reader_read_enumerated [VO (OReader view); VO (OEnum ms); vopt_tag t; vopt_header h; vopt_str hint] =
+  (let* (v, rest) := read_enumerated view t h in
+  if existsb (Z.eqb v) ms then Ok (VI v, [VO (OReader rest); VO (OEnum ms); vopt_tag t; vopt_header h; vopt_str hint])
+  else Raise ValueError).
+Proof. exact flow_reader_read_enumerated. Qed.
+Print Assumptions C07_flow_reader_read_enumerated.
+Theorem C07_flow_reader_read_object_identifier : forall fuel view t h hint,
+  run_mut MW fuel k_flow_reader_read_object_identifier [VO (OReader view); vopt_tag t; vopt_header h; vopt_str hint] =
+  (let* (v, rest) := read_object_identifier view t h in
+  Ok (VO (OOid v), [VO (OReader rest); vopt_tag t; vopt_header h; vopt_str hint])).
+Proof. exact flow_reader_read_object_identifier. Qed.
+Print Assumptions C07_flow_reader_read_object_identifier.
+Theorem C07_flow_reader_read_utf8_string : forall fuel view t h hint,
+  run_mut MW fuel k_flow_reader_read_utf8_string [VO (OReader view); vopt_tag t; vopt_header h; vopt_str hint] =
+  (let* (v, rest) := read_utf8_string view t h in Ok (VS v, [VO (OReader rest); vopt_tag t; vopt_header h; vopt_str hint])).
+Proof. exact flow_reader_read_utf8_string. Qed.
+Print Assumptions C07_flow_reader_read_utf8_string.
+Theorem C07_flow_reader_read_generalized_time : forall fuel view t h hint,
+  run_mut MW fuel k_flow_reader_read_generalized_time [VO (OReader view); vopt_tag t; vopt_header h; vopt_str hint] =
+  (let* (v, rest) := read_generalized_time view t h in Ok (VS v, [VO (OReader rest); vopt_tag t; vopt_header h; vopt_str hint])).
+Proof. exact flow_reader_read_generalized_time. Qed.
+Print Assumptions C07_flow_reader_read_generalized_time.
+Theorem C07_flow_reader_read_octet_string : forall fuel view t h hint,
+  run_mut MW fuel k_flow_reader_read_octet_string [VO (OReader view); vopt_tag t; vopt_header h; vopt_str hint] =
+  (let* (v, rest) := read_octet_string view t h in Ok (VB v, [VO (OReader rest); vopt_tag t; vopt_header h; vopt_str hint])).
+Proof. exact flow_reader_read_octet_string. Qed.
+Print Assumptions C07_flow_reader_read_octet_string.
+Theorem C07_flow_reader_read_sequence : forall fuel view t h hint,
+  run_mut MW fuel k_flow_reader_read_sequence [VO (OReader view); vopt_tag t; vopt_header h; vopt_str hint] =
+  (let* (v, rest) := read_sequence view t h in
+  Ok (VO (OReader v), [VO (OReader rest); vopt_tag t; vopt_header h; vopt_str hint])).
+Proof. exact flow_reader_read_sequence. Qed.
+Print Assumptions C07_flow_reader_read_sequence.
+Theorem C07_flow_reader_read_set : forall fuel view t h hint,
+  run_mut MW fuel k_flow_reader_read_set [VO (OReader view); vopt_tag t; vopt_header h; vopt_str hint] =
+  (let* (v, rest) := read_set view t h in
+  Ok (VO (OReader v), [VO (OReader rest); vopt_tag t; vopt_header h; vopt_str hint])).
+Proof. exact flow_reader_read_set. Qed.
+Print Assumptions C07_flow_reader_read_set.
+(* __init__ on a fresh object (object.__new__(ASN1Writer)) *)
+Theorem C07_flow_writer_init : forall fuel t p,
+  run_mut MW fuel k_flow_writer_init [VO ONewWriter; vopt_tag t; vopt_writer p] =
+  Ok (VN, [VO (OWriter (Writer [] t p)); vopt_tag t; vopt_writer p]).
+Proof. exact flow_writer_init. Qed.
+Print Assumptions C07_flow_writer_init.
+Theorem C07_flow_writer_enter : forall fuel w,
+  run_mut MW fuel k_flow_writer_enter [VO (OWriter w)] = Ok (VO (OWriter w), [VO (OWriter w)]).
+Proof. exact flow_writer_enter. Qed.
+Print Assumptions C07_flow_writer_enter.
+(* __exit__: nothing for a root writer; a child appends its TLV to (its snapshot of) the parent: writer_exit *)
+Theorem C07_flow_writer_exit : forall fuel w a b c,
+  run_mut MW fuel k_flow_writer_exit [VO (OWriter w); a; b; c] =
+  match wr_parent w with
+  | Some p => let* p' := writer_exit w p in
+  Ok (VN, [VO (OWriter (Writer (wr_data w) (wr_tag w) (Some p'))); a; b; c])
+  | None => Ok (VN, [VO (OWriter w); a; b; c])
+  end.
+Proof. exact flow_writer_exit. Qed.
+Print Assumptions C07_flow_writer_exit.
+Theorem C07_flow_writer_push_sequence : forall fuel w t,
+  run_mut MW fuel k_flow_writer_push_sequence [VO (OWriter w); vopt_tag t] =
+  Ok (VO (OWriter (writer_push (opt_tag t seq_tag) w)), [VO (OWriter w); VO (OTag (opt_tag t seq_tag))]).
+Proof. exact flow_writer_push_sequence. Qed.
+Print Assumptions C07_flow_writer_push_sequence.
+Theorem C07_flow_writer_push_set : forall fuel w t,
+  run_mut MW fuel k_flow_writer_push_set [VO (OWriter w); vopt_tag t] =
+  Ok (VO (OWriter (writer_push (opt_tag t set_tag) w)), [VO (OWriter w); VO (OTag (opt_tag t set_tag))]).
+Proof. exact flow_writer_push_set. Qed.
+Print Assumptions C07_flow_writer_push_set.
+Theorem C07_flow_writer_write_raw : forall fuel w b,
+  run_mut MW fuel k_flow_writer_write_raw [VO (OWriter w); VB b] = Ok (VN, [VO (OWriter (wr_extend w b)); VB b]).
+Proof. exact flow_writer_write_raw. Qed.
+Print Assumptions C07_flow_writer_write_raw.
+Theorem C07_flow_writer_get_data : forall fuel w,
+  run_mut MW fuel k_flow_writer_get_data [VO (OWriter w)] = (let* d := writer_get_data w in Ok (VB d, [VO (OWriter w)])).
+Proof. exact flow_writer_get_data. Qed.
+Print Assumptions C07_flow_writer_get_data.
+Theorem C07_flow_writer_write_boolean : forall fuel w v t,
+  run_mut MW fuel k_flow_writer_write_boolean [VO (OWriter w); VI v; vopt_tag t] =
+  (let* w' := writer_write (pack_boolean (negb (v =? 0)) t) w in Ok (VN, [VO (OWriter w'); VI v; vopt_tag t])).
+Proof. exact flow_writer_write_boolean. Qed.
+Print Assumptions C07_flow_writer_write_boolean.
+Theorem C07_flow_writer_write_integer : forall fuel w v t,
+  run_mut MW fuel k_flow_writer_write_integer [VO (OWriter w); VI v; vopt_tag t] =
+  (let* w' := writer_write (pack_integer v t) w in Ok (VN, [VO (OWriter w'); VI v; vopt_tag t])).
+Proof. exact flow_writer_write_integer. Qed.
+Print Assumptions C07_flow_writer_write_integer.
+Theorem C07_flow_writer_write_enumerated : forall fuel w v t,
+  run_mut MW fuel k_flow_writer_write_enumerated [VO (OWriter w); VI v; vopt_tag t] =
+  (let* w' := writer_write (pack_enumerated v t) w in Ok (VN, [VO (OWriter w'); VI v; vopt_tag t])).
+Proof. exact flow_writer_write_enumerated. Qed.
+Print Assumptions C07_flow_writer_write_enumerated.
+Theorem C07_flow_writer_write_octet_string : forall fuel w b t,
+  run_mut MW fuel k_flow_writer_write_octet_string [VO (OWriter w); VB b; vopt_tag t] =
+  (let* w' := writer_write (pack_octet_string b t) w in Ok (VN, [VO (OWriter w'); VB b; vopt_tag t])).
+Proof. exact flow_writer_write_octet_string. Qed.
+Print Assumptions C07_flow_writer_write_octet_string.
+Theorem C07_flow_writer_write_object_identifier : forall fuel w arcs t,
+  run_mut MW fuel k_flow_writer_write_object_identifier [VO (OWriter w); VO (OOid arcs); vopt_tag t] =
+  (let* w' := writer_write (pack_object_identifier arcs t) w in Ok (VN, [VO (OWriter w'); VO (OOid arcs); vopt_tag t])).
+Proof. exact flow_writer_write_object_identifier. Qed.
+Print Assumptions C07_flow_writer_write_object_identifier.
+Theorem C07_flow_writer_write_utf8_string : forall fuel w s t,
+  run_mut MW fuel k_flow_writer_write_utf8_string [VO (OWriter w); VS s; vopt_tag t] =
+  (let* w' := writer_write (pack_utf8_string s t) w in Ok (VN, [VO (OWriter w'); VS s; vopt_tag t])).
+Proof. exact flow_writer_write_utf8_string. Qed.
+Print Assumptions C07_flow_writer_write_utf8_string.
+Theorem C07_flow_writer_write_generalized_time : forall fuel w s t,
+  run_mut MW fuel k_flow_writer_write_generalized_time [VO (OWriter w); VS s; vopt_tag t] =
+  (let* w' := writer_write (pack_generalized_time s t) w in Ok (VN, [VO (OWriter w'); VS s; vopt_tag t])).
+Proof. exact flow_writer_write_generalized_time. Qed.
+Print Assumptions C07_flow_writer_write_generalized_time.
+Theorem C07_asn1_exit_is_exit : forall child owner,
+  asn1_exit (VO (OWriter child)) (Some (VO (OWriter owner))) =
+  (let* o' := writer_exit child owner in Ok (Some (VO (OWriter o')))).
+Proof. exact asn1_exit_is_exit. Qed.
+Print Assumptions C07_asn1_exit_is_exit.
+
